@@ -24,13 +24,13 @@ structure PodsGood (j0 : JobObj) (s : Sys) : Prop where
   cache : ∀ p ∈ s.podCache, PodOK2 j0 s.d p
   cacheNodup : (podNames s.podCache).Nodup
 
-theorem podTask_good {j0 : JobObj} {d : PIndex} {p : PodObj} {t : Task} (hp : PodOK2 j0 d p)
+theorem podTask_good {now : Time} {j0 : JobObj} {d : PIndex} {p : PodObj} {t : Task} (hp : PodOK2 j0 d p)
     (hown : p.ownerUid = some j0.uid)
-    (h : podTask p = some t) : TaskOK t ∧ RefOK j0 d t.ref ∧ t.name = p.pod.name := by
+    (h : podTask now p = some t) : TaskOK t ∧ RefOK j0 d t.ref ∧ t.name = p.pod.name := by
   have hok := podTask_ok h
   refine ⟨hok.1, ?_, hok.2⟩
   unfold podTask Pod.task at h
-  cases hr : p.pod.taskRef with
+  cases hr : p.pod.taskRef now with
   | none => simp [hr] at h
   | some r =>
     simp only [hr, Option.some.injEq] at h
@@ -285,7 +285,7 @@ theorem syncCreateTask_good {j0 : JobObj} (s : Sys) (jo : JobObj) (rj : Job) (ta
     ∀ rj1 tasks1, (syncCreateTask s jo rj tasks idx retry).2 = some (rj1, tasks1) →
       AdmOr jo s.podCache rj rj1 ∧ TasksGood j0 s.d tasks1 ∧
       (tasks1 = tasks ∨
-       ∃ t p, tasks1 = tasks ++ [t] ∧ t.name = taskName jo.name idx.hash retry ∧ podTask p = some t ∧
+       ∃ t p, tasks1 = tasks ++ [t] ∧ t.name = taskName jo.name idx.hash retry ∧ podTask s.clock p = some t ∧
         ((p = newPod jo idx retry (nowT s) ∧ taskName jo.name idx.hash retry ∉ podNames s.pods) ∨
          (p ∈ s.podCache ∧ p.ownerUid = some jo.uid))) := by
   intro rj1 tasks1
@@ -308,7 +308,7 @@ theorem syncCreateTask_good {j0 : JobObj} (s : Sys) (jo : JobObj) (rj : Job) (ta
       rcases hspec with hs | hs
       · exact absurd rfl (hs.2 p)
       · exact (findPod_eq_none_iff _ _).mp hs.1.fresh
-    cases hpt : podTask p with
+    cases hpt : podTask s.clock p with
     | none => simp [hpt] at h
     | some t =>
       simp only [hpt, Option.map_some, Option.some.injEq, Prod.mk.injEq] at h
@@ -330,7 +330,7 @@ theorem syncCreateTask_good {j0 : JobObj} (s : Sys) (jo : JobObj) (rj : Job) (ta
       by_cases hown : p.ownerUid = some jo.uid
       · rw [if_pos hown]
         intro h
-        cases hpt : podTask p with
+        cases hpt : podTask s.clock p with
         | none => simp [hpt] at h
         | some t =>
           simp only [hpt, Option.map_some, Option.some.injEq, Prod.mk.injEq] at h
@@ -373,7 +373,7 @@ theorem syncCreateTask_pods_sup (s : Sys) (jo : JobObj) (rj : Job) (tasks : List
 created (`NewPod`: controlled by the Job; its name was not on the server — not among `P0`, the names on
 the server when the loop started) or from a pod of the pod cache that is controlled by the Job -/
 def NewTask (jo : JobObj) (cache : List PodObj) (P0 : List String) (names : List String) (t : Task) : Prop :=
-  t.name ∈ names ∧ ∃ p, podTask p = some t ∧
+  t.name ∈ names ∧ ∃ p now, podTask now p = some t ∧
     (((∃ idx retry tm, p = newPod jo idx retry tm) ∧ p.pod.name ∉ P0) ∨ (p ∈ cache ∧ p.ownerUid = some jo.uid))
 
 theorem createLoop_good {j0 : JobObj} (jo : JobObj) (d : PIndex) (cache : List PodObj) (P0 : List String)
@@ -448,7 +448,7 @@ theorem createLoop_good {j0 : JobObj} (jo : JobObj) (d : PIndex) (cache : List P
             · exact Or.inl hin
             · simp only [List.mem_singleton] at hin
               subst hin
-              refine Or.inr ⟨by rw [hname]; exact List.mem_cons_self, p0, hpt, ?_⟩
+              refine Or.inr ⟨by rw [hname]; exact List.mem_cons_self, p0, _, hpt, ?_⟩
               rcases hsrc with h' | h'
               · refine Or.inl ⟨⟨_, _, _, h'.1⟩, ?_⟩
                 intro hmem
@@ -565,11 +565,11 @@ theorem sortPods_perm (l : List PodObj) : (sortPods l).Perm l := by
   unfold sortPods
   simpa using foldl_insertPodSorted_perm l []
 
-theorem append_podTasks_good {j0 : JobObj} {d : PIndex} (tasks : List Task) (F : List PodObj)
+theorem append_podTasks_good {j0 : JobObj} {d : PIndex} (now : Time) (tasks : List Task) (F : List PodObj)
     (hF : (F.map (·.pod.name)).Nodup) (hFc : ∀ p ∈ F, PodOK2 j0 d p) (hFo : ∀ p ∈ F, p.ownerUid = some j0.uid)
     (hnot : ∀ p ∈ F, tasks.any (fun x => decide (x.name = p.pod.name)) = false) (ht : TasksGood j0 d tasks) :
-    TasksGood j0 d (tasks ++ F.filterMap podTask) := by
-  have hsub := filterMap_names_sublist podTask (·.name) (·.pod.name) (fun x y h => (podTask_ok h).2) F
+    TasksGood j0 d (tasks ++ F.filterMap (podTask now)) := by
+  have hsub := filterMap_names_sublist (podTask now) (·.name) (·.pod.name) (fun x y h => (podTask_ok h).2) F
   refine ⟨?_, ?_⟩
   · rw [List.map_append, List.nodup_append]
     refine ⟨ht.nodup, hsub.nodup hF, ?_⟩
@@ -594,7 +594,7 @@ theorem adoptUnrecordedTasks_good {j0 : JobObj} (s : Sys) (jo : JobObj) (tasks :
   simp only
   have hperm := sortPods_perm s.podCache
   have hsortnd : ((sortPods s.podCache).map (·.pod.name)).Nodup := (hperm.map _).nodup_iff.mpr hp.cacheNodup
-  refine append_podTasks_good tasks _ ((List.filter_sublist.map _).nodup hsortnd) ?_ ?_ ?_ ht
+  refine append_podTasks_good s.clock tasks _ ((List.filter_sublist.map _).nodup hsortnd) ?_ ?_ ?_ ht
   · intro p hpf
     exact hp.cache p (hperm.subset (List.mem_filter.mp hpf).1)
   · intro p hpf
